@@ -41,7 +41,9 @@ func c12(c *Ctx) {
 	c12WriteErr(c)
 	c12RSAPad(c)
 	c12EnumNames(c)
-	idZeroRule(c, "C12.idzero", func(rel string) bool { return rel == "keyset" || strings.HasPrefix(rel, "insecurecleartextkeyset") || strings.HasPrefix(rel, "internal/protoserialization") })
+	idZeroRule(c, "C12.idzero", func(rel string) bool {
+		return rel == "keyset" || strings.HasPrefix(rel, "insecurecleartextkeyset") || strings.HasPrefix(rel, "internal/protoserialization")
+	})
 }
 
 // ---------------------------------------------------------------- inverse
@@ -587,15 +589,19 @@ func c12Keyset(c *Ctx) {
 				flat(val, 0)
 				all := len(leaves) > 0
 				for _, lf := range leaves {
-					kc, _ := guard.CallOf(lf)
-					if kc == nil || !isEntryMethod(&kc.Call, "KeyID") {
+					// entry.KeyID() or, inside the package, the plain field entry.keyID
+					ent, at, isID := entryRead(lf, "KeyID", "keyID")
+					if !isID {
 						all = false
 						continue
 					}
 					under := false
-					for _, blk := range []*ssa.BasicBlock{kc.Block(), ins.Block()} {
+					for _, blk := range []*ssa.BasicBlock{at, ins.Block()} {
 						for _, fct := range guard.BlockFacts(blk) {
-							if call, v, isB := guard.BoolCallFact(fct); isB && v && isEntryMethod(&call.Call, "IsPrimary") && sameEntry(call.Call.Args[0], kc.Call.Args[0]) {
+							if !fct.True {
+								continue
+							}
+							if e2, _, isP := entryRead(fct.Cond, "IsPrimary", "isPrimary"); isP && sameEntry(e2, ent) {
 								under = true
 							}
 						}
@@ -1020,4 +1026,18 @@ func c12IDRequirementFolds(p *core.Program, site ssa.CallInstruction) bool {
 		}
 	}
 	return n >= 4
+}
+
+// entryRead: v is entry.<method>() or a load of the plain field entry.<field> of a
+// *keyset.Entry; returns the entry and the block of the read.
+func entryRead(v ssa.Value, method, field string) (ssa.Value, *ssa.BasicBlock, bool) {
+	if kc, _ := guard.CallOf(v); kc != nil && isEntryMethod(&kc.Call, method) && len(kc.Call.Args) > 0 {
+		return kc.Call.Args[0], kc.Block(), true
+	}
+	if b, fld, ok := guard.FieldOf(v); ok && fld == field && core.TypeID(b.Type()) == "keyset.Entry" {
+		if ins, isI := guard.Strip(v).(ssa.Instruction); isI {
+			return b, ins.Block(), true
+		}
+	}
+	return nil, nil, false
 }
